@@ -255,6 +255,36 @@ def mntopt_case(src, mexe, table, idx, seed):
     return {"base": name, "steps": steps, "case_index": idx, "kind": "mount options"}, problems
 
 
+def lazy_itable_case(src, k):
+    """inode tables that were never written (lazy_itable_init, no discard) on a device that does not read back as zeroes;
+    turning off uninit_bg / metadata_csum removes the flag that told everyone to ignore them"""
+    T = lambda p_: os.path.join(src, p_)
+    env = e2v.tool_env(src)
+    img = os.path.join(WORK, "lazy_%d.img" % k)
+    feats, step = [("^metadata_csum,uninit_bg,^64bit", ["-O", "^uninit_bg"]), ("metadata_csum", ["-O", "^metadata_csum"]),
+                   ("^metadata_csum,uninit_bg", ["-O", "^uninit_bg", "-L", "x"])][k % 3]
+    rr = e2v.rng(1, "c11lazy", k)
+    open(img, "wb").write(bytes(rr.getrandbits(8) | 1 for _ in range(4096)) * (4 * 1024))
+    recipe = {"directed": "lazy_itable", "mke2fs": ["-t", "ext4", "-b", "1024", "-O", feats, "-E", "lazy_itable_init=1,nodiscard"], "device": "16M of non-zero bytes", "steps": [{"args": step}]}
+    rc, out = e2v.sh([T("misc/mke2fs"), "-q", "-F", "-t", "ext4", "-b", "1024", "-O", feats, "-E", "lazy_itable_init=1,nodiscard", img], env=env, timeout=120)
+    e2v.sh([T("debugfs/debugfs"), "-w", "-f", "-", img], input=b"mkdir a\nwrite /etc/services a/s\nwrite /etc/hostname h\n", env=env, timeout=60)
+    if rc != 0 or e2v.sh([T("e2fsck/e2fsck"), "-fn", img], env=env, timeout=120)[0] != 0:
+        os.unlink(img)
+        return recipe, []
+    t0 = tree_of(img)
+    rc, out = e2v.sh([T("misc/tune2fs")] + step + [img], env=env, timeout=300)
+    recipe["steps"][0]["rc"] = rc
+    problems = []
+    if rc == 0:
+        rc2, out2 = e2v.sh([T("e2fsck/e2fsck"), "-fn", img], env=env, timeout=300)
+        if rc2 != 0:
+            problems.append("e2fsck -fn exits %d after tune2fs %s: %s" % (rc2, " ".join(step), " | ".join(l for l in out2.split("\n") if "?" in l)[:300]))
+        if tree_of(img) != t0:
+            problems.append("files changed")
+    os.unlink(img)
+    return recipe, problems
+
+
 def run(res, replay=None):
     tier, seed = res.tier, res.seed
     os.makedirs(WORK, exist_ok=True)
@@ -301,6 +331,10 @@ def run(res, replay=None):
             res.sample(recipe)
         if problems:
             bad.append((recipe, problems))
+    for rcp, p in [lazy_itable_case(src, k) for k in range(3)]:
+        res.case(json.dumps(rcp), True)
+        if p:
+            bad.append((rcp, p))
     table = mntopt_table(src)
     nm_ = 12 if tier == "quick" else 300
     with concurrent.futures.ThreadPoolExecutor(12) as ex:
